@@ -334,6 +334,34 @@ def run_shard(shard, tier, seed):
         if len(samples) < 2:
             samples.append({'type': t, 'instances': ninst, 'schedule': schedule[:20],
                             'histories': [hist.case_string(h) for h in hists]})
+    # ---- an element and its deep copy are unrelated instances: removing / changing attributes, value or children of one
+    # must not show in the other (both directions)
+    usable = [(an, at) for an, at, req in ref.attr_table(t) if at is not None and an != 'name'][:4]
+    for an, at in usable:
+        forms = [f for f in ref.valid_forms(at) if ref.valid(at, f) and f == f.strip() and f]
+        if not forms:
+            continue
+        for direction in ('copy-changed', 'original-changed'):
+            e = lib.make(cls, check=True, with_required=True)
+            ok = False
+            for pv in lib.py_candidates(forms[0])[::-1]:
+                if lib.call(setattr, e, an.replace('-', '_'), pv)[0] == 'ok':
+                    ok = True
+                    break
+            if not ok:
+                continue
+            r = lib.call(copy.deepcopy, e)
+            if r[0] == 'exc':
+                continue
+            cp = r[1]
+            a, b = (cp, e) if direction == 'copy-changed' else (e, cp)
+            before = snap(b, lib)
+            evals += 1
+            nontriv += 1
+            lib.call(setattr, a, an.replace('-', '_'), None)
+            if snap(b, lib) != before:
+                v('deep-copy-and-original-share-state', {'attr': an, 'direction': direction}, {'what': 'attribute removal'})
+            c['copy_independence_probes'] += 1
     # ---- after the workload: templates and fresh-instance behaviour must be pristine
     evals += 2
     nontriv += 2
